@@ -533,7 +533,8 @@ UnsatCases ==
         \* written with the id or as "the previous element"
         v \in {"id", "prev"},
         \* how the referring element uses it
-        f \in {"dir", "loc", "loc-xy2", "loc-cxy", "scalar-x", "scalar-x2", "size", "line-xy1", "surround", "inside", "connector", "points"}}
+        f \in {"dir", "loc", "loc-xy2", "loc-cxy", "scalar-x", "scalar-x2", "size", "size-circle", "size-ellipse", "size-line", "size-width",
+               "line-xy1", "surround", "inside", "connector", "points"}}
 
 Cases == CASE Family = "textlines" -> TextLineCases [] Family = "unsat" -> UnsatCases [] Family = "solve" -> SolveCases
            [] Family = "textpos" -> TextPosCases
